@@ -320,7 +320,7 @@ def jobs(tier):
     for L in ((0, 1, 5, 28, 29, 200, 255) if tier == "quick" else [0, 1, 2, 3, 4, 5, 28, 29, 30, 31, 64, 128, 200, 255]):
         out.append(Job("O2-arbitrary-32-bytes", o2_arbitrary, dict(L=L), cost=30, shards=2))
     out.append(Job("O2-read-order", o2_order, {}, cost=3))
-    out.append(Job("O3-crc-step-affine-lemma", o3_affine, {}, cost=5))
+    out.append(Job("O3-crc-step-affine-lemma", o3_affine, {}, cost=5, crosscheck=True))
     for L in ((6, 9, 27) if tier == "quick" else range(6, 28)):
         out.append(Job("O3-single-bit-errors", o3_bit_errors, dict(L=L, double=False), cost=5))
     for L in ((6, 11) if tier == "quick" else (6, 9, 11, 16, 21, 27)):
